@@ -104,15 +104,31 @@ Proof.
   intros H. rewrite <- Nat2Z.inj_sub by lia. apply limit_take_pos. lia.
 Qed.
 
-(* run one collaborator of the world symbolically: the result is replaced by what its
-   contract says; the new world is [w'] with the fact [Hw'] about what is pending in it *)
-Ltac run_queue w o w' Ho Hw' :=
-  destruct (Hq w) as [Ho Hw']; destruct (queue_next w) as [o w']; cbn [fst snd] in Ho, Hw'.
+(* symbolic execution of the generated body: reduce the combinators, split every arithmetic
+   test into its outcomes (the impossible ones die by lia), and replace a collaborator that is
+   run by what its contract says; the new world is a fresh [w'] with a fact about what is
+   pending in it *)
+Ltac norm := cbv beta iota zeta delta [is_none_or is_some_and if_none zsize option_map sbind extend goes_on emits].
 
-Ltac run_create pt l w w' Hw' :=
-  let E := fresh "E" in
-  destruct (Hc pt l w) as [E Hw']; destruct (create_guesses pt false l w) as [[? ?] w'];
-  cbn [fst snd] in E, Hw'; injection E as -> ->.
+Ltac norm_in H := cbv beta iota zeta delta [is_none_or is_some_and if_none zsize option_map sbind extend goes_on emits] in H.
+
+Ltac run_queue :=
+  match goal with
+  | Hp : pending ?w = _ |- context [queue_next ?w] =>
+      let o := fresh "o" in let w' := fresh "w" in let Ho := fresh "Ho" in let Hw := fresh "Hw" in
+      destruct (Hq w) as [Ho Hw]; destruct (queue_next w) as [o w']; cbn [fst snd] in Ho, Hw;
+      rewrite Hp in Ho, Hw; cbn [hd_error tl] in Ho, Hw; subst o; clear Hp
+  end.
+
+Ltac run_create :=
+  match goal with
+  | |- context [create_guesses ?pt false ?l ?w] =>
+      let w' := fresh "w" in let E := fresh "E" in let Hw := fresh "Hw" in
+      destruct (Hc pt l w) as [E Hw]; destruct (create_guesses pt false l w) as [[? ?] w'];
+      cbn [fst snd] in E, Hw; injection E as -> ->
+  end.
+
+Ltac exec := repeat first [ progress norm | run_queue | run_create | split_test; try lia ].
 
 Theorem prince_eq : forall (size : option nat) (fuel : nat) (w : W),
   length (pending (new_queue w)) < fuel ->
@@ -126,29 +142,18 @@ Proof.
     destruct (prince_loop size body kk oo Hstep (fun _ _ _ => eq_refl) (pending (new_queue w)) fuel (new_queue w) [] 0
                 eq_refl Hf) as [w' H]; exists w'; exact H].
   (* one iteration of the generated body against the model *)
-  intros w0 printed g. subst body. cbv beta iota.
-  repeat split.
-  - (* the size has been reached *)
-    destruct size as [n|]; [|discriminate]. cbn [goes_on zsize option_map is_none_or]. intros Hg. zb Hg.
-    split_test; [lia | reflexivity].
+  intros w0 printed g. subst body. repeat split.
+  - (* the size has been reached: the loop is left, nothing is popped *)
+    destruct size as [n|]; [|discriminate]. norm. intros Hg. zb Hg. exec. reflexivity.
   - (* the queue is empty *)
-    intros Hg Hp. run_queue w0 o w1 Ho Hw1. rewrite Hp in Ho. cbn in Ho. subst o.
-    destruct size as [n|]; cbn [goes_on zsize option_map is_none_or if_none] in *.
-    + zb Hg. split_test; [|lia]. eexists. reflexivity.
-    + eexists. reflexivity.
+    intros Hg Hp. destruct size as [n|]; norm_in Hg; [zb Hg|]; exec; eexists; reflexivity.
   - (* one pre-terminal *)
-    intros Hg it r Hp. run_queue w0 o w1 Ho Hw1. rewrite Hp in Ho, Hw1. cbn in Ho, Hw1. subst o.
-    destruct size as [n|]; cbn [goes_on zsize option_map is_none_or if_none emits] in *.
-    + zb Hg. split_test; [|lia]. cbn [if_none].
-      match goal with |- context [create_guesses ?pt false ?l w1] => run_create pt l w1 w2 Hw2 end.
-      cbn [sbind].
-      match goal with |- context [limit_take (Some ?z)] =>
-        replace z with (Z.of_nat n - Z.of_nat g)%Z by lia end.
+    intros Hg it r Hp. destruct size as [n|]; norm_in Hg; [zb Hg|]; exec.
+    + match goal with |- context [limit_take (Some ?z)] => replace z with (Z.of_nat n - Z.of_nat g)%Z by lia end.
       rewrite take_remaining by exact Hg.
-      exists w2. split; [congruence|]. unfold extend, len. repeat f_equal. lia.
-    + match goal with |- context [create_guesses ?pt false ?l w1] => run_create pt l w1 w2 Hw2 end.
-      cbn [sbind]. rewrite limit_take_none.
-      exists w2. split; [congruence|]. unfold extend, len. repeat f_equal. lia.
+      eexists. split; [|unfold len; repeat f_equal; lia]. congruence.
+    + rewrite limit_take_none.
+      eexists. split; [|unfold len; repeat f_equal; lia]. congruence.
 Qed.
 
 (* termination: fuel above the number of pre-terminals is never exhausted (prince_eq
